@@ -4,9 +4,12 @@ sd="$1"; shift
 cd /repo || exit 2
 git apply --check "$sd/patch.diff" 2>/dev/null || { echo "SEED $sd: patch does not apply to current /repo"; exit 3; }
 git apply "$sd/patch.diff"
+# evidence and generated files of a mutated run must never be left behind (evidence is committed from clean-tree runs only)
+rm -rf /tmp/verif_seed_keep; mkdir -p /tmp/verif_seed_keep; cp -a /verif/evidence /verif/coq/Gen /tmp/verif_seed_keep/
 for p in "$@"; do
   out=$(cd /verif && timeout 1800 python3 harness/check.py $p 2>&1); rc=$?
   echo "SEED $(basename $sd) check $p: exit=$rc $(echo "$out" | grep -c '^VIOLATION') violation line(s)"
   echo "$out" | grep -A1 "^VIOLATION" | grep "what:" | head -3
 done
 git checkout -- . 
+rm -rf /verif/evidence /verif/coq/Gen; cp -a /tmp/verif_seed_keep/evidence /verif/evidence; cp -a /tmp/verif_seed_keep/Gen /verif/coq/Gen; rm -rf /tmp/verif_seed_keep
